@@ -1,7 +1,7 @@
 """C16 — any history of group operations behaves like arithmetic in Z_r (structural clauses)."""
 from core import report
 from core.sm9 import Repo
-from . import shared, field, norm, weight
+from . import shared, field, norm, weight, profile, conv2
 
 
 def run(ctx):
@@ -9,10 +9,17 @@ def run(ctx):
     r_norm, N = norm.rule_norm("C16", repo)
     rules = [field.rule_pure("C16", repo), r_norm, norm.rule_id_guard("C16", repo, N), weight.rule_weight_group("C16", repo), weight.rule_weight_lines("C16", repo),
              norm.rule_prep_immut("C16", repo), field.rule_tower_consts("C16", repo)]
+    # no operation of the register file (G1, G2, Fr values) can panic, whatever the history left in its operands (release MIR)
+    repo_rel = Repo(ctx.rel)
+    Fr_ = repo_rel.F
+    entries = sorted(b.rec["path"] for b in Fr_.fn_bodies() if b.rec["kind"] in ("Fn", "AssocFn") and Fr_.is_exported(b.rec["path"])
+                     and b.rec.get("impl_self_adt") in ("crate::G1", "crate::G2", "crate::Fr"))
+    rules.append(profile.rule_nopanic_core("C16", repo_rel, entries, conv2.make_conv))
     return report.emit(
         "C16", ctx.tier, ctx.seed, rules, ctx.started,
         "For all histories: (i) effect analysis — no mutable statics, only lazy_static cells with closed literal initialisers, Copy+Freeze value types, RNG only by parameter, no unsafe — "
         "so a result depends only on operand values; (ii) typestate with every public input in state ⊤: no public operation has an undischarged representation / non-identity "
-        "requirement; (iii) every formula a ⊤ value can meet is Jacobian-weight homogeneous, i.e. independent of the representative inherited from the history.",
+        "requirement; (iii) every formula a ⊤ value can meet is Jacobian-weight homogeneous, i.e. independent of the representative inherited from the history; "
+        "(iv) no operation on G1, G2 or Fr values can panic in the release MIR (assertions discharged by intervals, unwrap/expect only where guarded or in constant initialisers).",
         shared.ASSUMPTIONS,
         ["that the values equal those predicted by discrete logarithms (needs the group law and pairing arithmetic)"])
